@@ -19,7 +19,7 @@ Notation trb := (tracing tr).
 Notation pm := (pmc tr).
 
 (* the machine's predicate evaluator refines the specification's, on well-formed candidates *)
-Hypothesis ev_ok : forall p m, wf m ->
+Hypothesis ev_ok : forall p m, In (VPred p) vp -> wf m ->
   (fst (ev p m tr) = fst (sev p (abs m)) /\
    map abs_ev (snd (ev p m tr)) = proj trb (snd (sev p (abs m)))) \/
   (exists e, fst (ev p m tr) = Exn e /\ budget_exn e = true).
@@ -666,7 +666,7 @@ Proof.
         eapply (realizes_none m s n VParent [] []); [exact Hnth | | rewrite proj_nil; reflexivity].
         cbn [vmatch]. rewrite Hr. reflexivity.
     + (* filter *)
-      destruct (ev_ok p m Hwf) as [[Ho He] | (e & Hfail & Hbe)].
+      destruct (ev_ok p m (nth_error_In _ _ Hnth) Hwf) as [[Ho He] | (e & Hfail & Hbe)].
       2: { destruct (ev p m tr) as [ro evs] eqn:Hev. simpl in Hfail. subst ro.
            eapply (realizes_budget P ev src vp tr _ (ETraversing e)); [eapply step_match_raise; [exact Hnth|] | exact Hbe].
            cbn [vmatch]. rewrite Hev. reflexivity. }
